@@ -87,6 +87,13 @@ impl Stream {
         }
     }
 
+    /// Fail a still pending open (no-op when the open has already been answered).
+    pub async fn fail_pending_open(&self, err: AnyTlsError) {
+        if let Some(tx) = self.synack_tx.lock().await.take() {
+            let _ = tx.send(Err(AnyTlsError::Protocol(err.to_string())));
+        }
+    }
+
     /// Get stream ID
     pub fn id(&self) -> u32 {
         self.id
